@@ -84,23 +84,29 @@ def genuine_match(lib_view, et_view):
 
 
 def find_literal(stream, start_from, lib_view, gt_positions):
+    # Among the literal elements the delivered message can be the parse of, take the one that ENDS first: a stray opener and its
+    # closer may enclose valid messages of the same kind (<message device="a"> ... <message/> ... </message>), and what the buffer
+    # delivers first is the inner, earlier-complete one - which must not be booked on the enclosing element.
     tag = lib_view[0]
     look = "<" + tag
+    best = None
     i = stream.find(look, start_from)
-    while i >= 0:
+    while i >= 0 and (best is None or i < best[1]):
         for j in gt_positions:
             if j <= i:
                 continue
+            if best is not None and j + 1 >= best[1]:
+                break
             sub = stream[i:j + 1]
             try:
                 el = ET.fromstring(sub)
             except Exception:
                 continue
             if genuine_match(lib_view, view_et(el)):
-                return i, j + 1
+                best = (i, j + 1)
             break  # the shortest well-formed element at i is the only candidate
         i = stream.find(look, i + 1)
-    return None
+    return best
 
 
 def check_stream(ctx, pieces, thr, cuts, case):
